@@ -346,7 +346,21 @@ def gen_calls(rng):
     out = []
     for _ in range(rng.randint(2, 5)):
         r = rng.random()
-        if r < 0.6:
+        if r < 0.25:
+            # required dummies passed by keyword, out of their declared order
+            form = rng.randrange(5)
+            a1, a2 = rng.choice(ARG1), rng.choice(ARG1)
+            if form == 0:
+                out.append((f"    call target_sub(second=rr, first={a1})", "target_sub", ["first", "second", "third", "fourth"]))
+            elif form == 1:
+                out.append((f"    call target_sub({a1}, third={rng.choice(ARG3)}, second=rr)", "target_sub", ["first", "second", "third", "fourth"]))
+            elif form == 2:
+                out.append((f"    call target_sub(fourth=.true., second = rr, first = {a1})", "target_sub", ["first", "second", "third", "fourth"]))
+            elif form == 3:
+                out.append((f"    q = ff(y={a1}, x={a2})", "ff", ["x", "y"]))
+            else:
+                out.append((f"    call o%meth(m={a1}, k={a2})", "meth", ["k", "m"]))
+        elif r < 0.6:
             parts = [rng.choice(ARG1), "rr"]
             if rng.random() < 0.7:
                 parts.append(rng.choice(ARG3) if rng.random() < 0.6 else "third=" + rng.choice(ARG3))
@@ -388,6 +402,7 @@ def expected_active(line, col, name, params):
     seg = line[start + 1:col]
     # commas at depth 0 of seg, outside strings
     depth, instr, commas, last = 0, None, 0, 0
+    starts = [0]
     for k, c in enumerate(seg):
         if instr:
             if c == instr:
@@ -401,8 +416,11 @@ def expected_active(line, col, name, params):
         elif c == "," and depth == 0:
             commas += 1
             last = k + 1
+            starts.append(last)
     cur = seg[last:]
-    return callee, commas, cur
+    prev = [seg[a:b] for a, b in zip(starts, starts[1:])]
+    prev_kw = [(re.match(r"^\s*([A-Za-z_]\w*)\s*=(?!=)", a) or [None, None])[1] for a in prev]
+    return callee, commas, cur, prev_kw
 
 
 def run_case(ctx, i, rng):
@@ -493,7 +511,7 @@ def run_case(ctx, i, rng):
                 em = expected_active(ctext, col, name, params)
                 if em is None:
                     continue
-                callee, commas, cur = em
+                callee, commas, cur, prev_kw = em
                 if callee is None or callee.lower() != name.lower():
                     continue  # nested call or non-procedure parentheses: not judged here
                 r = srv.request("textDocument/signatureHelp", srv.pos(suri, ln, col))
@@ -512,6 +530,17 @@ def run_case(ctx, i, rng):
                     res.violation("signature:label", f"label {lab!r}, expected arguments {params}", wit)
                     break
                 km = re.match(r"^\s*(\w+)\s*=", cur)
+                if any(prev_kw) and not km:
+                    # after a keyword argument only keyword arguments may follow: until `name=` is typed the parameter is determined only
+                    # when every reading agrees (slot count, successor of the last keyword, first parameter not yet passed)
+                    filled = set()
+                    for n_, kw_ in enumerate(prev_kw):
+                        filled.add(params.index(kw_.lower()) if kw_ and kw_.lower() in params else n_)
+                    last_kw = [k_ for k_ in prev_kw if k_][-1].lower()
+                    cands = {commas, params.index(last_kw) + 1 if last_kw in params else commas, min([n_ for n_ in range(len(params) + 1) if n_ not in filled])}
+                    if len(cands) > 1:
+                        res.count("signature_positions_undetermined")
+                        continue
                 exp_idx = params.index(km.group(1).lower()) if km and km.group(1).lower() in params else commas
                 # while the keyword is being typed (no '=' yet) the position counts
                 if r[2].get("activeParameter") != exp_idx:
